@@ -2,9 +2,12 @@ package sx
 
 import (
 	"fmt"
+	"os"
+	"path/filepath"
 	"sort"
 	"strconv"
 	"strings"
+	"sync/atomic"
 
 	"verifh/internal/smt"
 )
@@ -58,6 +61,8 @@ type PathResult struct {
 	Steps       int
 	Log         []decision
 	Sample      map[string]string
+	SampleCh    []Choice
+	SampleFull  map[string]string
 }
 
 func (r *PathResult) stub(name string) {
@@ -141,6 +146,7 @@ func (in *Interp) vxAssert(fr *frame, label string, c Bool) {
 	neg := in.tb.Not(c.T)
 	r := in.sol.Check(neg)
 	in.res.Queries++
+	in.crossCheck(label, neg, r)
 	switch r {
 	case smt.Unsat:
 		// holds for every value on this path
@@ -151,6 +157,44 @@ func (in *Interp) vxAssert(fr *frame, label string, c Bool) {
 	}
 	// continue under the assertion (later assertions are checked independently of this failure)
 	in.assume(c.T)
+}
+
+// crossCheck re-decides a sampled verdict query with cvc5 and z3 5.1 from a standalone script (DESIGN 2.4).
+// A definite disagreement makes the run inconclusive; an unknown from the other solver is only counted.
+func (in *Interp) crossCheck(label string, neg *smt.Term, r smt.Result) {
+	cfg := in.cfg
+	if cfg.CrossEvery <= 0 || (r != smt.Sat && r != smt.Unsat) {
+		return
+	}
+	n := atomic.AddInt64(&in.ex.assertSeq, 1)
+	if (n+int64(cfg.Seed))%int64(cfg.CrossEvery) != 0 {
+		return
+	}
+	if atomic.AddInt64(&in.ex.crossDone, 1) > int64(cfg.CrossMax) {
+		return
+	}
+	f, err := os.CreateTemp("", "gosx-x-*.smt2")
+	if err != nil {
+		return
+	}
+	defer os.Remove(f.Name())
+	in.sol.Dump(f, neg)
+	f.Close()
+	for _, k := range []string{"cvc5", "z3-new"} {
+		r2, _ := smt.RunScript(k, f.Name(), 30)
+		switch {
+		case r2 == smt.Unknown:
+			in.res.note("xcheck." + k + ".unknown")
+		case r2 == r:
+			in.res.note("xcheck." + k + ".agree")
+		default:
+			keep := filepath.Join(os.TempDir(), "gosx-disagreement-"+filepath.Base(f.Name()))
+			if b, e := os.ReadFile(f.Name()); e == nil {
+				os.WriteFile(keep, b, 0o644)
+			}
+			panic(inconclusive{fmt.Sprintf("solver disagreement on assertion %s: z3 says %s, %s says %s (script kept at %s)", label, r, k, r2, keep)})
+		}
+	}
 }
 
 func strArg(v Value) string {
@@ -397,6 +441,25 @@ func init() {
 	})
 
 	// randomness provenance (C03)
+	reg("RandDistinctAxiom", func(in *Interp, fr *frame, a []Value) Value {
+		in.m.noDistinctDraws = !a[0].(Bool).C
+		return nil
+	})
+	reg("FreshDraw", func(in *Interp, fr *frame, a []Value) Value {
+		if in.m.claimedDraw == nil {
+			in.m.claimedDraw = map[*smt.Term]bool{}
+		}
+		ok := true
+		for _, e := range a[0].(Slice).A {
+			b, isBV := e.(BV)
+			if !isBV || b.T == nil || !strings.HasPrefix(b.T.Name, "rnd_") || in.m.claimedDraw[b.T] {
+				ok = false
+				continue
+			}
+			in.m.claimedDraw[b.T] = true
+		}
+		return Bool{C: ok}
+	})
 	reg("DrawCount", func(in *Interp, fr *frame, a []Value) Value { return mkBV(64, uint64(len(in.m.rndDraws))) })
 	reg("IsDraw", func(in *Interp, fr *frame, a []Value) Value {
 		x := a[0].(Slice)
